@@ -151,6 +151,7 @@ ADAPTORS = [
     (r'^Group_read$|^readString$', _scenario('desc_length_signed')),
     (r'^Parameters_write', _scenario('data_start_block')),
     (r'^Header_write$', _scenario('header_write_label')),
+    (r'^c3d_updateHeader$', _scenario('header_frames_after_declare')),
 ]
 
 
